@@ -227,6 +227,14 @@ def retry_case(case):
             mark = log.mark()
             r = await H.probe(log, case["cmd"], fn(w))
             out["raised"] = isinstance(r, Exception) and repr(r)
+            if case.get("again"):
+                # a retry loop of the application: init() again on the object that is
+                # initialised already, while the command is held for the next connection
+                log.add("API.call", name="init_again")
+                r2 = await H.probe(log, "init_again", w.at.init())
+                obs["init_again_while_a_command_is_held"] = 1
+                if r2 is not True:
+                    out["init_again"] = r2
         else:
             req = case["req"]
             if req == "heartbeat":
